@@ -282,6 +282,16 @@ CLAIMED = {
              "controls, and the open->mmap window reached by strace delay injection; wild's accept/reject is compared with the model's verdict for the same trace.",
         technique="Coq proof (clock/mtime monotonicity over arbitrary traces) + fault-timed runs of the real binary (pause hook, strace injection)",
         design_ref="DESIGN.md §3 C20"),
+    "C25": dict(
+        text="S1: the dependency file as data: prerequisites = the non-temporary loaded files in load order with later repeats dropped; the rule line rendered with Make escaping; a model of GNU "
+             "Make's reading of a rule line (backslash-space, backslash-hash, $$, unescaped space separates, first unescaped colon ends the target). Theorems: the prerequisites are exactly the "
+             "files read, each once; for every target and every list of names free of backslash, newline and colon, Make reads back exactly that target and those names; refuted without "
+             "escaping (a name with a space becomes two prerequisites).",
+        note="Partial: that loaded_files holds every file whose contents the link read is established on real links (strace of the files opened), not proved. Tie: generated links over all input "
+             "kinds incl. version scripts and export lists, with hostile file names; the real file is read by the Coq reader and by GNU make 4.3, which must rerun the link after any one input "
+             "is touched and not otherwise.",
+        technique="Coq proof (round trip render/read for all names, exactness of the de-duplicated list) + real dependency files read by the model and by GNU make",
+        design_ref="DESIGN.md §3 C25"),
     "C10": dict(
         text="S1: Gallina model of what wild writes for unwinding (an FDE is kept iff the section its pc-begin points into was loaded and is not empty; one search-table entry per kept FDE with "
              "hdr-relative signed start and FDE pointer; the table sorted by the signed start) and of the consumer (the last entry with start <= pc, then the range check — what libgcc's binary "
